@@ -17,6 +17,7 @@ translator emitted an in-place site (of either program) in the innermost library
 naming convention misses (no trailing underscore, no out=) shows up as an "untracked writer".
 """
 import sys
+import weakref
 
 import torch
 
@@ -110,23 +111,38 @@ class IRTracer:
         self.bumps_ok = 0
         self.lines = 0
         self.bindings = 0
+        self.depth = 0
 
     # -- helpers
     def _key(self, frame):
         fn = frame.f_code.co_filename
         return ("linear_operator/" + fn[len(LIBROOT):], frame.f_code.co_qualname.replace(".<locals>", ""))
 
-    def _scan_bumps(self):
-        for rec in self.tracked.values():
-            t = rec[0]
+    def _track(self, t):
+        rec = self.tracked.get(id(t))
+        if rec is None or rec[0]() is not t:
+            if len(self.tracked) < 4000:
+                self.tracked[id(t)] = [weakref.ref(t), t._version]
+
+    def _scan_bumps(self, external=False):
+        dead = []
+        for i, rec in self.tracked.items():
+            t = rec[0]()
+            if t is None:
+                dead.append(i)
+                continue
             v = t._version
             if v != rec[1]:
                 rec[1] = v
+                if external:
+                    continue          # written while no library frame was active (harness code, autograd engine)
                 at = self.last
                 if at is not None and at[2] in self.site_lines.get((at[0], at[1]), ()):
                     self.bumps_ok += 1
                 else:
                     self.untracked[at] = self.untracked.get(at, 0) + 1
+        for i in dead:
+            del self.tracked[i]
 
     def _bind_changes(self, frame, st, line):
         info = st["info"]
@@ -140,8 +156,7 @@ class IRTracer:
             ts = []
             tensors_of(v, ts)
             for t in ts:
-                if id(t) not in self.tracked and len(self.tracked) < 4000:
-                    self.tracked[id(t)] = [t, t._version]
+                self._track(t)
             if name in ("self", "cls", "out", "ctx") or name in info["borrowed"] or line is None:
                 continue
             ss = set()
@@ -165,22 +180,23 @@ class IRTracer:
         fn = frame.f_code.co_filename
         if not fn.startswith(LIBROOT):
             return None
-        self._scan_bumps()
+        self._scan_bumps(external=(event == "call" and self.depth == 0))
         key = self._key(frame)
         if event == "call":
+            self.depth += 1
             info = self.info.get(key)
             if info is not None:
                 caller = set()
-                for v in frame.f_locals.values():
-                    storages_of(v, caller)
+                for n_, v in frame.f_locals.items():
+                    if n_ != "out":              # explicit out= buffers are excluded by the property (Fresh in the IR)
+                        storages_of(v, caller)
                 # free variables of nested functions are caller-owned as well
                 st = {"info": info, "key": key, "caller": caller, "prev": {n: id(v) for n, v in frame.f_locals.items()}, "last_line": None}
                 for v in frame.f_locals.values():
                     ts = []
                     tensors_of(v, ts)
                     for t in ts:
-                        if id(t) not in self.tracked and len(self.tracked) < 4000:
-                            self.tracked[id(t)] = [t, t._version]
+                        self._track(t)
                 self.frames[id(frame)] = st
             return self
         st = self.frames.get(id(frame))
@@ -191,6 +207,14 @@ class IRTracer:
                 st["last_line"] = frame.f_lineno
             self.last = (key[0], key[1], frame.f_lineno)
         elif event == "return":
+            self.depth = max(0, self.depth - 1)
+            # control goes back into the middle of the caller's current line (no new 'line' event will fire for it)
+            fb = frame.f_back
+            while fb is not None and not fb.f_code.co_filename.startswith(LIBROOT):
+                fb = fb.f_back
+            if fb is not None:
+                kb = self._key(fb)
+                self.last = (kb[0], kb[1], fb.f_lineno)
             if st is not None:
                 self._bind_changes(frame, st, st["last_line"])
                 del self.frames[id(frame)]
@@ -200,6 +224,7 @@ class IRTracer:
         self.frames.clear()
         self.tracked.clear()
         self.last = None
+        self.depth = 0
 
 
 def run_traced(case, layout, seed, tracer):
